@@ -160,7 +160,28 @@ def F19():
     return any(not (0 <= c.start <= c.end <= len(h.value)) for h in hits for c in h.children)
 
 
-ALL = ["F1", "F2", "F3", "F4", "F5", "F6", "F7", "F8", "F9", "F12", "F13", "F14", "F15", "F16", "F18", "F19"]
+def F10():
+    import base64
+    from multidecoder.decoders.base64 import find_base64
+    payload = b"The quick brown fox jumps over the lazy dog!! and again the fox"
+    b64 = base64.b64encode(payload)
+    text = b"&#xD;&#xA;".join(b64[i:i + 20] for i in range(0, len(b64), 20))
+    hits = find_base64(b"zz " + text + b" zz")
+    return not (len(hits) == 1 and hits[0].value == payload and (hits[0].start, hits[0].end) == (3, 3 + len(text)))
+
+
+def F20():
+    from multidecoder.decoders.path import find_windows_path
+    bad = False
+    for d in (b"\\\\.abc\\UNC\\1.2.3.4\\file.txt", b"\\\\..\\UNC\\evil.com\\file.txt"):
+        for h in find_windows_path(d):
+            for c in h.children:
+                if c.type in ("network.ip", "network.domain") and h.value[c.start:c.end] != c.value:
+                    bad = True
+    return bad
+
+
+ALL = ["F1", "F2", "F3", "F4", "F5", "F6", "F7", "F8", "F9", "F12", "F13", "F14", "F15", "F16", "F18", "F19", "F10", "F20"]
 if __name__ == "__main__":
     for name in (sys.argv[1:] or ALL):
         try:
